@@ -7,6 +7,11 @@ ALL = ["C%02d" % i for i in range(1, 21)]
 
 # id -> (category, technique, level text, level note, design ref, engine)
 CHECKS = {
+ "C11": ("model_checking",
+         "bounded-exhaustive enumeration (tile catalogue x data tables x all option combinations x layer name x source compression) against a reference join on the independently decoded form",
+         "26 catalogue tiles (C10's plus tiles around the named layer: ids as string/int64/sint64/uint64, float vs double, unknown geometry type, duplicate keys and values, unused entries, an untouched second layer, and all key tables of length <= 3 over {id,k}) x 4 data tables x all 8 option combinations x layer name present/absent x source compression (one per cell in quick, all three in thorough) run through the real pipeline stage, lookup and stream; the output is decoded by the harness's own protobuf decoder and must equal the reference join: other layers untouched, id/geometry type/geometry bytes/order of retained features preserved, property sets as joined. Every catalogue tile also goes through VectorTile::from_blob -> to_blob and must keep its decoded content.",
+         "The catalogue is a representative alphabet, closed only for key tables up to length 3 over two names. Integer kinds (int64/sint64/uint64) are compared by numeric value; the CSV cell typing follows the operation's documented rule (numbers, true/false, text).",
+         "3/C11", "E-enum"),
  "C10": ("model_checking",
          "bounded-exhaustive enumeration of ordered source lists over a catalogue of independently encoded vector tiles x all presence patterns, with a reference merge on the independently decoded form",
          "Every ordered pair of 12 catalogue tiles (and every ordered triple: first 6 in quick, all 12 plus 4-tuples over 4 in thorough) is a source list of from_vectortiles_merged; each source holds its tile at one coordinate per presence mask so all 2^k presence patterns occur; sources have mixed compressions and answer with different delays. The merged tile is decoded by the harness's own protobuf decoder and must have exactly the union of layer names, each layer the concatenation of the sources' features in source order with id, geometry type, geometry bytes and property set intact; absent iff no source has a tile; declared and delivered uncompressed; stream = lookups.",
